@@ -47,6 +47,9 @@ type c11Result struct {
 	Panic string      `json:"panic,omitempty"`
 	Info  *c11Info    `json:"info,omitempty"`
 	Pipe  *pipeResult `json:"pipe,omitempty"`
+	// Srv: verdicts of the server-side entry point for the first and for a
+	// repeated submission of the same text
+	Srv []string `json:"srv,omitempty"`
 }
 
 func init() {
@@ -304,6 +307,23 @@ func c11Body(r *vlib.Run) int {
 		}
 		var res c11Result
 		json.Unmarshal(raw, &res)
+		if res.Panic == "" {
+			var cc c11Case
+			b, _ := json.Marshal(cases[i])
+			json.Unmarshal(b, &cc)
+			want := "accepted"
+			if res.Err != "" || res.Nil {
+				want = "rejected"
+			}
+			for k, v := range res.Srv {
+				r.Count("server_side_submissions_checked", 1)
+				if v != want {
+					r.Violation("server-verdict-differs-from-parser", map[string]interface{}{"query": cc.Q, "query_hex": fmt.Sprintf("%x", cc.Q),
+						"parser": want, "server": v, "submission": k + 1, "parse_error": res.Err})
+					break
+				}
+			}
+		}
 		switch {
 		case i < nv:
 			c11CheckValid(r, i, valids[i], &res)
